@@ -38,7 +38,12 @@ def gen_case(rng, depth=None):
     depth = depth or rng.choice([1, 2, 2, 3, 3])
     shapes = [rng.randint(1, 5) for _ in range(depth)]
     d = rng.choice([0, 0, 0, 3])
-    tree = U.gen_fiber(rng, depth, shapes, d)
+    if depth >= 2 and rng.random() < 0.35:
+        # many stored-but-empty sub-fibers of different occupancy ([] / explicit defaults only): equal
+        # under ==, different footprints - each must be counted as the object it is
+        tree = U.gen_fiber(rng, depth, shapes, d, p_absent=0.15, p_zero=0.6, p_emptysub=0.4)
+    else:
+        tree = U.gen_fiber(rng, depth, shapes, d)
     raw = []
     for _ in range(depth):
         if rng.random() < 0.1:
